@@ -159,6 +159,17 @@ CHECKS = {
         design_ref="DESIGN.md 7/C18",
         note="integer percentages; config validation not in the grid",
         technique="TLA+ decision table (TLC exhaustive) + TLC validation of real guard decisions on a fake server"),
+    "C19": dict(
+        category="model_checking",
+        text="The real Syncer.Sync with the real registry adapter runs on fake ZooKeeper and fake servers over random registries "
+             "(status, lag around both marks, settings, master registered by mistake) with an injected failing statement in a "
+             "third of the syncs and two consecutive syncs; every registry delete is recorded with the ground-truth settings "
+             "at that instant; planned switchovers with lagging targets, pre-optimised replicas and the C01 fault grid give "
+             "promotion/attempt rows. TLC judges at-most-one, restore-then-drop, lost/converged handling (OptRows.tla) and "
+             "not-promoted-relaxed / phase-ends-before-freeze (PromoRows.tla). The speed-up phase race (S4) is listed.",
+        design_ref="DESIGN.md 7/C19",
+        note="'relaxed' = settings differ from the master's; CLI commands emulated by registry entries",
+        technique="TLC validation of sync results and promotion events recorded from real code on fakes (TLA+ row specs)"),
 }
 
 NOT_YET = "check not built yet in this round (work in progress, see DESIGN.md 9)"
